@@ -119,6 +119,51 @@ def check(case):
             g.to_gfa1()
         attempt("groups", f, fails, c)
         return dict(key=("groups", tuple(lines), vlevel), nontrivial=True, failures=fails, sample=dict(lines=lines))
+    if kind == "deepgroups":
+        # groups nested deeper than the interpreter's recursion limit
+        _, gk, n, vlevel, op = case
+        o = "+" if gk == "O" else ""
+        lines = ["S\ta\t8\t*", "%s\tp0\ta%s" % (gk, o)] + ["%s\tp%d\tp%d%s" % (gk, i + 1, i, o) for i in range(n)]
+        c = dict(group=gk, depth=n, vlevel=vlevel, op=op, repro="import gfapy\nn = %d\ng = gfapy.Gfa(['S\\ta\\t8\\t*', '%s\\tp0\\ta%s'] + ['%s\\tp%%d\\tp%%d%s' %% (i + 1, i) for i in range(n)], vlevel=%d)\n# then: %s" % (n, gk, o, gk, o, vlevel, op))
+        def f():
+            g = gfapy.Gfa(lines, vlevel=vlevel)
+            top = g.line("p%d" % n)
+            if op == "resolve":
+                top.captured_path if gk == "O" else top.induced_set
+            elif op == "write":
+                str(g)
+            elif op == "rm":
+                g.rm("a")
+            elif op == "validate":
+                g.validate()
+        try:
+            f()
+        except gfapy.Error:
+            pass
+        except RecursionError:
+            fails.append(dict(signature="C07:deep-nesting:%s:%s:RecursionError" % (gk, op), what="%d nested %s groups, vlevel %d, %s: RecursionError" % (n, gk, vlevel, op), case=c, reproducer=c["repro"]))
+        except Exception as e:
+            fails.append(dict(signature="C07:deep-nesting:%s:%s:%s" % (gk, op, type(e).__name__), what=harness.short(e, 200), case=c, reproducer=c["repro"]))
+        return dict(key=case, nontrivial=True, failures=fails, sample=c)
+    if kind == "sethuge":
+        # strings of thousands of digits (alone and dressed as CIGAR, trace, array, JSON, position, float) assigned to every field of a line
+        _, text, vlevel = case
+        big = "1" * 5000
+        vals = [big, big + "M", big + ",1", "I," + big, "[" + big + "]", big + "$", "a" + big, "-" + big, big + ".5", "1e" + big, big + "M" + big + "I"]
+        l0 = gfapy.Line(text, vlevel=vlevel)
+        for f in l0.positional_fieldnames + l0.tagnames:
+            for v in vals:
+                c = dict(line=text, field=f, value=v[:4] + "..." + v[-4:], vlevel=vlevel,
+                         repro="import gfapy\nl = gfapy.Line(%r, vlevel=%d)\nl.set(%r, %s)\nl.get(%r); str(l); l.validate()" % (text, vlevel, f, "'1' * 5000 + " + repr(v[5000:]) if v.startswith(big) else repr(v[:-5000]) + " + '1' * 5000" if v.endswith(big) else repr(v), f))
+                l = gfapy.Line(text, vlevel=vlevel)
+                n0 = len(fails)
+                attempt("set", lambda: l.set(f, v), fails, c)
+                if len(fails) == n0:
+                    attempt("get", lambda: l.get(f), fails, c)
+                    attempt("str", lambda: str(l), fails, c)
+                    attempt("validate", lambda: l.validate(), fails, c)
+                    attempt("validate_field", lambda: l.validate_field(f), fails, c)
+        return dict(key=case, nontrivial=True, failures=fails, sample=dict(line=text, vlevel=vlevel))
     if kind == "value":
         _, ctor, text = case
         c = dict(constructor=ctor, text=text, repro="import gfapy\n%s(%r)" % (ctor, text))
@@ -247,6 +292,33 @@ def cases(tier, seed):
                 for vlevel in (0, 1, 3):
                     out.append(("line", bl + "\t" + tv, vlevel, version))
                     out.append(("doc", [x for x in segs if x != bl] + [bl + "\t" + tv], vlevel))
+    # a line refused as a duplicate whose own text holds braces (a JSON tag, an identifier): the text goes into the error message
+    for version in basel:
+        segs = ["S\tA\t*", "S\tB\t*"] if version == "gfa1" else ["S\tA\t8\t*", "S\tB\t8\t*"]
+        for rt, bl in basel[version].items():
+            if rt in ("H", "X", "F"):
+                continue
+            for tail in ('\txx:J:{"k": 1}', '\txx:Z:{0}{1}', '\txx:Z:{', '\tID:Z:a{}b\txx:J:{"0": [1]}'):
+                if tail.startswith("\tID") and rt not in ("L", "C"):
+                    continue
+                for vlevel in (0, 1, 3):
+                    out.append(("doc", [x for x in segs if x != bl] + [bl + tail, bl + tail], vlevel))
+            for name in ("{s}", "s{}{}", "s{", "}{0"):
+                if rt in ("L", "C"):
+                    dup = bl + "\tID:Z:" + name
+                else:
+                    f = bl.split("\t"); f[1] = name; dup = "\t".join(f)
+                for vlevel in (0, 1, 3):
+                    out.append(("doc", [x for x in segs if x != dup] + [dup, dup], vlevel))
+    for text in ["L\ta\t+\tb\t+\t1M", "C\ta\t+\tb\t+\t1\t*", "E\te\ta+\tb+\t0\t1\t0\t1\t*", "S\ta\t*\txx:i:1\tyy:B:I,1\tzz:f:1.0\tjj:J:[1]\tLN:i:1\thh:H:0A\tcc:A:c", "S\ta\t1\t*", "G\tg\ta+\tb+\t1\t1",
+                 "F\ta\tx+\t0\t1\t0\t1\t*", "P\tp\ta+,b+\t1M", "O\to\ta+ b+", "U\tu\ta b", "H\tVN:Z:1.0\tTS:i:1"]:
+        for vlevel in (0, 1, 2, 3):
+            out.append(("sethuge", text, vlevel))
+    for gk in "OU":
+        for n in (200, 1200):
+            for vlevel in (0, 1):
+                for op in ("build", "resolve", "write", "rm", "validate"):
+                    out.append(("deepgroups", gk, n, vlevel, op))
     # files that are not text
     for data in (b"S\ta\t*\txx:Z:\xff\xfe\n", b"\xff\xfeS\x00", b"H\tVN:Z:1.0\n\x80\n", b"S\ta\t*\n\x00\x00"):
         for vlevel in (0, 1):
